@@ -317,6 +317,71 @@ func genWalk() {
 	b.WriteString("(* ast/node.go Patch: the new node receives the old node's Type() and Location() before it is stored through the pointer *)\n")
 	fmt.Fprintf(&b, "Definition gen_patch_copies_type : bool := %s.\nDefinition gen_patch_copies_location : bool := %s.\nDefinition gen_patch_assigns : bool := %s.\n\n",
 		bl(patchType), bl(patchLoc), bl(patchAssign))
+	// ast/node.go `base` (embedded in every node): the stored annotations and their four accessors, statement by statement.
+	// Local names are canonicalised (receiver -> r, parameter -> x), so a renamed parameter leaves the table unchanged.
+	{
+		var fields, methods []string
+		if nf != nil {
+			for _, d := range nf.Decls {
+				if gd, ok := d.(*ast.GenDecl); ok && gd.Tok == token.TYPE {
+					for _, sp := range gd.Specs {
+						ts := sp.(*ast.TypeSpec)
+						st, isStruct := ts.Type.(*ast.StructType)
+						if ts.Name.Name != "base" || !isStruct {
+							continue
+						}
+						for _, f := range st.Fields.List {
+							if len(f.Names) == 0 {
+								fields = append(fields, "("+coqString("(embedded)")+", "+coqString(src(f.Type))+")")
+							}
+							for _, n := range f.Names {
+								fields = append(fields, "("+coqString(n.Name)+", "+coqString(src(f.Type))+")")
+							}
+						}
+					}
+				}
+				fd, ok := d.(*ast.FuncDecl)
+				if !ok || fd.Recv == nil || len(fd.Recv.List) != 1 || strings.TrimPrefix(src(fd.Recv.List[0].Type), "*") != "base" || fd.Body == nil {
+					continue
+				}
+				ren := map[string]string{}
+				if len(fd.Recv.List[0].Names) == 1 {
+					ren[fd.Recv.List[0].Names[0].Name] = "r"
+				}
+				if fd.Type.Params != nil {
+					for _, prm := range fd.Type.Params.List {
+						for _, n := range prm.Names {
+							ren[n.Name] = "x"
+						}
+					}
+				}
+				var stmts []string
+				for _, st := range fd.Body.List {
+					ast.Inspect(st, func(n ast.Node) bool {
+						if se, ok := n.(*ast.SelectorExpr); ok {
+							if id, ok := se.X.(*ast.Ident); ok {
+								if to, ok := ren[id.Name]; ok {
+									id.Name = to
+								}
+							}
+							return false
+						}
+						if id, ok := n.(*ast.Ident); ok {
+							if to, ok := ren[id.Name]; ok {
+								id.Name = to
+							}
+						}
+						return true
+					})
+					stmts = append(stmts, strings.Join(strings.Fields(src(st)), " "))
+				}
+				methods = append(methods, "("+coqString(fd.Name.Name)+", "+coqString(strings.Join(stmts, "; "))+")")
+			}
+		}
+		sortStrings(methods)
+		b.WriteString("(* ast/node.go `base`: fields (name, type) in declaration order; methods (name, body with canonical local names), sorted *)\n")
+		fmt.Fprintf(&b, "Definition gen_base_fields : list (string * string) := [%s].\nDefinition gen_base_methods : list (string * string) := [%s].\n\n", strings.Join(fields, "; "), strings.Join(methods, "; "))
+	}
 	b.WriteString("Definition walk_unrecognised : list string := [")
 	for i, u := range unrec {
 		if i > 0 {
